@@ -23,6 +23,10 @@ def run(tier, seed, t0):
     for be, lam in dbg:
         jobs.append(Job("debug-%s-%d" % (be, lam), "drv_c01", "debug", be,
                         ["--seed", seed + 7, "--lambda", lam, "--level", "quick" if thorough else "lite"], timeout=7200))
+    for i, j in enumerate(jobs):      # process history: every other native job first generates and uses a custom parameter set
+        if j.tool is None and j.driver == "drv_c01" and i % 2 == 0:
+            j.args = j.args + ["--prelude", "1"]
+
     return vcheck.simple_run("C01", tier, seed, t0, jobs, "exploration", RULE,
                              ["admissible = phase within 1/32 of +-1/8 (inclusive); injection is exact because the harness measures "
                               "the sample's phase with the secret key and moves b",
